@@ -190,8 +190,48 @@ func runC19(r *Run) error {
 					r.Count("snapshot-skipped(getqueue panics)")
 					continue
 				}
-				if err := reopen(i, "snapshot"); err != nil {
-					return err
+				switch r.Rng.Intn(3) {
+				case 0:
+					if err := reopen(i, "snapshot"); err != nil {
+						return err
+					}
+				case 1:
+					// snapshot loaded into the store that saved it (it already holds every entry):
+					// the store stays open, so the status must not move backwards or overshoot
+					st0 := s.Stores[i]
+					if _, err := basestore.SaveSnapshot(ctx, st0); err != nil {
+						r.Count("snapshot-save-error")
+						break
+					}
+					if err := st0.LoadFromSnapshot(ctx); err != nil {
+						return fmt.Errorf("load snapshot in place: %w", err)
+					}
+					s.Settle()
+					sample(i)
+					r.Count("snapshot-in-place")
+				default:
+					// an older snapshot loaded after the directory was reloaded: Load(-1) brings the
+					// whole log, LoadFromSnapshot then joins entries the store already holds
+					st0 := s.Stores[i]
+					if _, err := basestore.SaveSnapshot(ctx, st0); err != nil {
+						r.Count("snapshot-save-error")
+						break
+					}
+					if r.Rng.Intn(2) == 0 {
+						if err := writeOp(r, s, st0, st*10+7); err != nil {
+							return err
+						}
+						sample(i)
+					}
+					if err := reopen(i, "load"); err != nil {
+						return err
+					}
+					if err := s.Stores[i].LoadFromSnapshot(ctx); err != nil {
+						return fmt.Errorf("load snapshot after load: %w", err)
+					}
+					s.Settle()
+					sample(i)
+					r.Count("snapshot-after-load")
 				}
 			}
 		}
